@@ -3,3 +3,5 @@ import QV.Prelude
 import QV.Generated.Consts
 import QV.Generated.Tables
 import QV.Properties.C14
+import QV.Properties.C12
+import QV.Properties.C13
